@@ -270,6 +270,13 @@ def player_rule(F, rep, spec):
                 kind = "cpu" if exact_cpu else ("mixed" if mentions_cpu else "other")
                 res[kind] = "some" if (declared(body) or "").endswith("Some") else ("none" if (body.get("path") or "").endswith("None") else "?")
             cpu_ok = res == {"cpu": "some", "other": "none"} and n_arms == 2
+        # Some(<level byte>).filter(|_| type == Some(PlayerType::Cpu))  /  (type == Some(Cpu)).then_some(<level byte>)
+        if x.get("k") == "MethodCall" and x["method"] == "filter" and len(x["args"]) == 1 and (declared(strip(x["recv"])) or "").endswith("::Some"):
+            cl = strip(x["args"][0])
+            c = strip(cl["body"]) if cl.get("k") == "Closure" and len(cl["params"]) == 1 and cl["params"][0].get("k") == "Wild" else {}
+            cpu_ok = cpu_ok or is_cpu_test(c, tname)
+        if x.get("k") == "MethodCall" and x["method"] in ("then_some", "then") and is_cpu_test(strip(x["recv"]), tname):
+            cpu_ok = True
     rep.ob("player.cpu-level", cpu_ok, PL, "cpu_level", "cpu_level must be present exactly for CPU players")
     ucf = F.structs.get("game::Ucf")
     utys = {f["name"]: f["ty"] for f in ucf["fields"]} if ucf else {}
@@ -322,6 +329,17 @@ def strings_rule(F, rep):
             fn, ln, base, ln - 1), sample={"fn": fn, "field": base, "max_len": ln - 1})
 
 
+def is_cpu_test(c, tname):
+    """`type == Some(PlayerType::Cpu)` (either order) on the player's type local"""
+    if c.get("k") != "Binary" or c.get("op") != "Eq":
+        return False
+    for a, b_ in ((c["l"], c["r"]), (c["r"], c["l"])):
+        v = strip(b_)
+        if L.local_name(a) == tname and v.get("k") == "Call" and (declared(v) or "").endswith("::Some") and len(v["args"]) == 1 and (strip(v["args"][0]).get("path") or "").endswith("PlayerType::Cpu"):
+            return True
+    return False
+
+
 def placements_ok(b):
     """(0..NUM_PORTS).filter_map(|n| player_end(Port::try_from(n as u8).unwrap(), placements[n]).transpose())"""
     for fm in tir.walk(b["tir"]["value"]):
@@ -348,6 +366,26 @@ def placements_ok(b):
                 idx = strip(idx["e"])
             plc = ix.get("k") == "Index" and (tir.place(ix["base"]) or "").endswith("placements") and idx.get("id") == nid
             return bool(port_from_n and plc)
+    # for (n, placement) in placements.into_iter().enumerate() { .. player_end(Port::try_from(n as u8).unwrap(), placement)? .. }
+    for lp in tir.walk(b["tir"]["value"]):
+        if lp.get("k") == "For" and lp["pat"].get("k") == "Tuple" and len(lp["pat"]["pats"]) == 2 and all(q.get("k") == "Bind" for q in lp["pat"]["pats"]):
+            it = strip(lp["iter"])
+            if not (it.get("k") == "MethodCall" and it["method"] == "enumerate"):
+                continue
+            src = strip(it["recv"])
+            while src.get("k") == "MethodCall" and src["method"] in ("iter", "into_iter", "copied") and not src.get("args"):
+                src = strip(src["recv"])
+            if not (tir.place(src) or "").endswith("placements") or "[i8; 4]" not in (src.get("ty") or ""):
+                continue
+            nid, xid = lp["pat"]["pats"][0]["id"], lp["pat"]["pats"][1]["id"]
+            for pe in tir.walk(lp["body"]):
+                if pe.get("k") == "Call" and (declared(pe) or "") == "io::slippi::de::player_end" and len(pe["args"]) == 2:
+                    a0, a1 = pe["args"]
+                    port_from_n = any(x.get("k") == "Call" and (declared(x) or "").endswith("TryFrom::try_from") and any(y.get("k") == "Path" and y.get("id") == nid for y in tir.walk(x)) for x in tir.walk(a0)) and "Port" in (a0.get("ty") or "")
+                    v = strip(a1)
+                    while v.get("k") == "Unary" and v.get("op") == "Deref":
+                        v = strip(v["e"])
+                    return bool(port_from_n and v.get("id") == xid)
     return False
 
 
@@ -364,8 +402,17 @@ def end_rule(F, rep, spec):
     rep.ob("end.lras", "match r.read_u8()? {255 => std::prelude::v1::None; x => std::prelude::v1::Some(std::convert::TryFrom::try_from(x).map_err(io::slippi::de::invalid_data)?)}" in txt, GE, "lras", "LRAS initiator: 255 means none, otherwise Port::try_from")
     rep.ob("end.placements", placements_ok(b), GE, "placements",
            "placements must pair index n with port n for n in 0..NUM_PORTS")
-    pe = tir.pretty(F.body("io::slippi::de::player_end")["tir"]["value"])
-    rep.ob("end.player_end", "-1 => std::prelude::v1::Ok(std::prelude::v1::None)" in pe and "0..=3 => std::prelude::v1::Ok(std::prelude::v1::Some(game::PlayerEnd {port: port, placement: (placement as u8)}))" in pe, "io::slippi::de::player_end", "table",
+    import valeval
+
+    def pe_spec(v):
+        if v == -1:
+            return ("Ok", ("None",))
+        if 0 <= v <= 3:
+            return ("Ok", ("Some", ("struct", "game::PlayerEnd", (("placement", v), ("port", ("sym", "port"))))))
+        return ("Err",)
+    valeval.decide_table(F, "io::slippi::de::player_end", "placement", ["port"], pe_spec, rep, "end.player_end")
+    pe = ""
+    rep.ob("end.player_end.present", F.body("io::slippi::de::player_end") is not None, "io::slippi::de::player_end", "table",
            "placement -1 means absent, 0..=3 is kept with its port")
     lits = [x for x in tir.walk(b["tir"]["value"]) if x.get("k") == "Struct" and (x.get("path") or "") == "game::End"]
     ok = len(lits) == 1 and all(L.local_name(f["e"]) == f["name"] for f in lits[0]["fields"])
